@@ -1805,36 +1805,39 @@ verify_changed(VB* self, PyObject* ignored)
 {
     PyObject *t, *ro, *generations, *old;
 
-    VB_clear(self);
-
+    /* The snapshot of the base generations is taken *before* the caches
+       are dropped (see the Python version): dropping them can run the
+       destructor of a value only they kept alive, and an answer that
+       code caches must not be older than the snapshot we store below. */
     t = PyObject_GetAttr(OBJECT(self), str_registry);
     if (t == NULL)
-        return NULL;
+        goto failed;
 
     ro = PyObject_GetAttr(t, strro);
     Py_DECREF(t);
     if (ro == NULL)
-        return NULL;
+        goto failed;
 
     t = PyObject_CallFunctionObjArgs(OBJECT(&PyTuple_Type), ro, NULL);
     Py_DECREF(ro);
     if (t == NULL)
-        return NULL;
+        goto failed;
 
     ro = PyTuple_GetSlice(t, 1, PyTuple_GET_SIZE(t));
     Py_DECREF(t);
     if (ro == NULL)
-        return NULL;
+        goto failed;
 
     generations = _generations_tuple(ro);
     if (generations == NULL) {
         Py_DECREF(ro);
-        return NULL;
+        goto failed;
     }
 
-    /* Everything since VB_clear() can run arbitrary Python code (the
-       destructor of a value only the caches kept alive, ``ro`` and
-       ``_generation`` properties), which can call ``changed()`` again and
+    VB_clear(self);
+
+    /* VB_clear() can run arbitrary Python code (the destructor of a value
+       only the caches kept alive), which can call ``changed()`` again and
        store snapshots of its own: release those instead of leaking them. */
     old = self->_verify_generations;
     self->_verify_generations = generations;
@@ -1845,6 +1848,13 @@ verify_changed(VB* self, PyObject* ignored)
 
     Py_INCREF(Py_None);
     return Py_None;
+
+failed:
+    /* Nothing we have cached may outlive a change, even one we could not
+       take a new snapshot for; without a snapshot the next lookup tries
+       again. */
+    VB_clear(self);
+    return NULL;
 }
 
 /*
